@@ -318,10 +318,7 @@ func RunC09(c *core.Ctx) {
 		if strings.Contains(fn, "Unicast") || strings.Contains(fn, "Frame") || strings.Contains(fn, "Message") {
 			n = len(frameCorpus)
 		}
-		step := 1
-		if c.Quick() {
-			step = 3
-		}
+		step := 1 // (the whole corpus in both tiers: a third of it per seed let a panic hide behind the seed)
 		walk := []json.RawMessage{mk(`{"n":"connect","c":"c1","u":"u-c1","will":{"on":false}}`), mk(`{"n":"sub","c":"c1","k":"kAll","w":["a"],"syn":"ok","last":0,"win":"none"}`)}
 		for i := int(c.Seed) % step; i < n; i += step {
 			walk = append(walk, mk(fmt.Sprintf(`{"n":"cluster","fn":%q,"idx":%d}`, fn, i)))
